@@ -203,6 +203,29 @@ func applyFault(root *jnode, path, fault string) bool {
 		default:
 			return false
 		}
+	case "cut-after-colon":
+		// "Organization: ACME" -> "Organization: ": the structured prefix with an empty payload
+		if cur.kind != "string" {
+			return false
+		}
+		var v string
+		json.Unmarshal([]byte(cur.raw), &v)
+		k := strings.Index(v, ": ")
+		if k < 0 || k+2 == len(v) {
+			return false
+		}
+		b, _ := json.Marshal(v[:k+2])
+		parent.kids[i] = &jnode{kind: "string", raw: string(b)}
+	case "whitespace":
+		if cur.kind != "string" {
+			return false
+		}
+		parent.kids[i] = &jnode{kind: "string", raw: `" "`}
+	case "noassertion":
+		if cur.kind != "string" {
+			return false
+		}
+		parent.kids[i] = &jnode{kind: "string", raw: `"NOASSERTION"`}
 	case "absent":
 		parent.kids = append(parent.kids[:i:i], parent.kids[i+1:]...)
 		if parent.kind == "object" {
@@ -252,8 +275,12 @@ func richDoc() *sbom.Document {
 	root.Licenses = []string{"MIT", "Apache-2.0"}
 	root.Description = "d"
 	root.ExternalReferences = append(root.ExternalReferences, &sbom.ExternalReference{Type: sbom.ExternalReference_VCS, Url: "https://example.com/vcs", Hashes: map[int32]string{3: "abcd"}})
+	root.Suppliers = []*sbom.Person{{Name: "ACME Inc", IsOrg: true}}
+	root.Originators = []*sbom.Person{{Name: "Jane Doe"}}
 	lib := spdxNode(r, "lib", 1.0, 1)
 	lib.Type = sbom.Node_PACKAGE
+	lib.Suppliers = []*sbom.Person{{Name: "John Roe"}}
+	lib.Originators = []*sbom.Person{{Name: "Upstream Org", IsOrg: true}}
 	lib.Licenses = []string{"MIT"}
 	file := &sbom.Node{Id: "file", Type: sbom.Node_FILE, Name: "f.txt", Hashes: map[int32]string{2: "ee"}, Copyright: "c", LicenseConcluded: "MIT"}
 	d.NodeList.Nodes = []*sbom.Node{root, lib, file}
@@ -493,7 +520,13 @@ func faultRun(args []string) error {
 	sort.Strings(names)
 	for i := 0; i < *extra; i++ {
 		base := reps[names[i%len(names)]]
-		switch i % 5 {
+		switch i % 6 {
+		case 5:
+			// tag-value text around the version tag: bytes before it, values after it
+			pre := pick(r, []string{"", "\xff", "\xff\xfe\xfd", "\u023a\u023e", "  ", "# ", "\xc3"})
+			val := pick(r, []string{"", " ", " SPDX-2.3", "SPDX-2.3", " 2.3", " SPDX-2.3 SPDX-9.9", " SPDX-2.2\r", "\t"})
+			tail := pick(r, []string{"", "\n", "\nDataLicense: CC0-1.0\n", "\r\n"})
+			runCase("tag-value", nil, []byte(pre+"SPDXVersion:"+val+tail))
 		case 0:
 			b := make([]byte, r.Intn(200))
 			r.Read(b)
